@@ -32,8 +32,17 @@ ALIASES = [
     ("C17.R5", c04.r3, "every found include is inserted with the including file's language (= C04.R3)"),
     ("C18.R6", c08.r3, "per-occurrence warnings: the compiler table is not updated while parsing (= C08.R3)"),
     ("C18.R7", c04.r6, "the quote/angle form reported in a warning is the directive's form (= C04.R6)"),
+    ("C09.R5", c13.r9, "membership and the reported names are relative to one canonical root per front end (= C13.R9)"),
+    ("C10.R4", c13.r9, "compiled files are resolved and analysed against the code base's own root (= C13.R9)"),
+    ("C15.R5", c13.r9, "the root itself is canonical, however it was spelled (= C13.R9)"),
+    ("C05.R6", c17.r4_dups, "no extension is claimed by two languages (= part of C17.R4)"),
     ("C05.R5", c17.r3, "a file is scanned with the line source of its (inherited) language (= C17.R3)"),
 ]
 
 for rid, fn, why in ALIASES:
     REGISTRY.append(Rule(rid, rid.split(".")[0], why, fn))
+
+from . import c12 as _c12  # noqa: E402
+
+REGISTRY.append(Rule("C11.R7", "C11", "a legal user configuration is never dropped by the schema (= C12.R9)", _c12.r9))
+REGISTRY.append(Rule("C11.R8", "C11", "built-in compiler definitions: list destinations are only appended to (= C12.R3)", _c12.r3))
